@@ -822,6 +822,8 @@ def source_has(key):
         # second stage: the copy rectangles are merged into the update region when they alone reach the field size
         _SRC["wrapcopy"] = _SRC["wrapfix"] and bool(re.search(r"sraRgnOr\(\s*updateRegion\s*,\s*updateCopyRegion\s*\)", body))
         # F22 repair (notes/fix_C03_8.diff): the cursor redraw area is intersected with the saved requestedRegion
+        # a3e0ace: Raw sends a line longer than the update buffer in pieces instead of closing the client mid-update
+        _SRC["rawpieces"] = "send buffer too small" not in txt
         _SRC["clipcursor"] = bool(re.search(r"sraRgnAnd\(\s*updateRegion\s*,\s*requested\s*\)", body))
     return _SRC[key]
 
@@ -1058,6 +1060,15 @@ def analyse_case(case_lines, impl_lines, model_lines, crashed, stderr_tail):
     res["closed_midmessage"] = bool(orc is not None and orc.leftover() and gone)
     # a message cut short is accepted only when the server itself closed the connection right there
     # (e.g. rfbSendRectEncodingRaw: "send buffer too small for %d bytes per line" -> rfbCloseClient)
+    # since a3e0ace that abort is gone: a server-side close in the middle of a message, in a session in which the
+    # client neither closed nor sent garbage, is a truncated update again
+    client_misbehaves = any(o.split()[0] in ("close", "raw") for o, _ in ops if o.split())
+    if (orc is not None and orc.leftover() and not res["oracle"] and gone and source_has("rawpieces")
+            and not client_misbehaves and not crashed):
+        f = features_of(case_lines, "truncated", {"degenerate_region": snaps_deg, "rects_ge_65535": total_rects_max >= 65535,
+                                                  "client_bpp": orc.bpp, "closed_by_server": True})
+        res["oracle"].append(("the server closed the connection inside a message: %d bytes do not form a complete message"
+                              % orc.leftover(), f))
     if orc is not None and orc.leftover() and not res["oracle"] and not gone:
         f = features_of(case_lines, "truncated", {"degenerate_region": snaps_deg, "rects_ge_65535": total_rects_max >= 65535,
                                                   "client_bpp": orc.bpp})
